@@ -92,6 +92,7 @@ def one(ctx, case, reqs, meta):
                 res = with_timeout(120, lambda: smc.sample(case['n'], quantiles=list(c['quantiles']), bar=False))
             pops = res.populations
             prev_thr = float(pops[-1].threshold)
+            c['in_force'] = [None if t is None else float(t) for t in smc.objective['thresholds']]
     except Timeout:
         ctx.case(case, True)
         ctx.count('outcome', 'timeout')
@@ -140,6 +141,11 @@ def one(ctx, case, reqs, meta):
                 return
         elif r > 0:
             want = weighted_sample_quantile(np.asarray(pops[r - 1].discrepancies), c['quantiles'][idx_in_call[r]], weights=np.asarray(pops[r - 1].weights))
+            used = c['in_force'][r] if r < len(c.get('in_force', [])) else None
+            if used is None or not math.isclose(used, float(want), rel_tol=1e-12, abs_tol=0):
+                ctx.fail_input(where, 'population %d: the threshold in force %r is not the %r-quantile %r of the population immediately before (weighted by its weights)'
+                               % (r, used, c['quantiles'][idx_in_call[r]], float(want)), float(want), used)
+                return
             if not np.all(d <= want + 1e-12):
                 ctx.fail_input(where, 'population %d: discrepancies exceed the %r-quantile %r of the previous population' % (r, c['quantiles'][idx_in_call[r]], float(want)))
                 return
@@ -177,10 +183,17 @@ def one(ctx, case, reqs, meta):
 
 def process(ctx, n):
     reqs, meta = [], []
-    for _ in range(n):
+    forced = [[dict(thresholds=[1.5, 1.0]), dict(thresholds=[0.8, 0.6])],
+              [dict(quantiles=[0.5, 0.5]), dict(quantiles=[0.5])],
+              [dict(thresholds=[2.0, 1.2, 0.8]), dict(quantiles=[0.5, 0.7])],
+              [dict(quantiles=[0.7, 0.5]), dict(thresholds=[0.6])]]
+    for i in range(n):
         if ctx.enough():
             break
-        one(ctx, gen_case(ctx.rng), reqs, meta)
+        case = gen_case(ctx.rng)
+        if i < len(forced):                      # every run covers continued sampling after a multi-round call
+            case['calls'] = [dict(c) for c in forced[i]]
+        one(ctx, case, reqs, meta)
     if ctx.driver_ok and reqs:
         for (case, refs, nbs), a in zip(meta, ctx.lean.drive(reqs)):
             m = a.get('ok')
